@@ -106,6 +106,7 @@ FAMILIES = {
     "component_chain": lambda n: _prog(["x = " + "%".join("c%d(i)" % i for i in range(n))]),
     "format_groups": lambda n: _prog(["10 format(" + "2(" * n + "i2" + ")" * n + ")"]),
     "nested_derived_type_params": lambda n: _prog(["type(t(" * 1 + ", ".join("k%d = %d" % (i, i) for i in range(n)) + ")) :: x"]),
+    "nested_f2008_intrinsic_refs": lambda n: _prog(["x = " + "gamma(erf(" * n + "a" + "))" * n]),
     "nested_and_not": lambda n: _prog(["l = " + "a .and. .not. (" * n + "z" + ")" * n]),
     "nested_or_not_relational": lambda n: _prog(["if (" + "i > 0 .or. .not. (" * n + "z" + ")" * n + ") x = 1"]),
     "nested_keyword_arg_refs": lambda n: _prog(["x = " + "f(k = " * n + "a" + ")" * n]),
@@ -125,7 +126,7 @@ FAMILIES = {
     "data_implied_do_nest": lambda n: _prog(["data " + "(" * n + "a(" + ", ".join("i%d" % i for i in range(n)) + ")" + "".join(", i%d = 1, 2)" % i for i in range(n)) + " / %d * 0 /" % 2 ** n]),
     "io_implied_do_nest": lambda n: _prog(["write(6, *) " + "(" * n + "a(i)" + "".join(", i%d = 1, 2)" % i for i in range(n))]),
 }
-F08_FAMILIES = {"nested_block", "repeat_block_critical"}
+F08_FAMILIES = {"nested_block", "repeat_block_critical", "nested_f2008_intrinsic_refs"}
 
 KINDS = {
     "if": ("if (a%(i)d) then", "end if"),
@@ -221,7 +222,8 @@ def exhaustive(tier, flags):
     for fam in FAMILIES:
         if fam in ("nested_function_refs", "nonblock_do_distinct") and "no_exponential_families" in flags and False:
             continue
-        for std in ("f2008", "f2003"):
+        # the standards alternate their order from family to family (both parsers live in one process)
+        for std in (("f2008", "f2003") if len(fam) % 2 else ("f2003", "f2008")):
             if std == "f2003" and fam in F08_FAMILIES:
                 continue
             for n in sizes(tier):
